@@ -59,6 +59,10 @@ func (g *vfGen) genC12() {
 	pro := []string{"", "<!DOCTYPE html>", "<!doctype html>\n<html><head>", "<html>\n<head>\n", "<!-- <meta charset=fake-one> -->\n<html>",
 		"<html><head><title><meta charset=fake-two></title>", "<html><script>var a='<meta charset=fake3>';</script>",
 		"<html><head><meta name=\"viewport\" content=\"width=device-width\">", "<html><head><meta name=description content=\"charset is cool\">",
+		// constructs that HTML treats as bogus comments ending at the first `>` (a CDATA section outside foreign content,
+		// a processing instruction, `<!x`, an end tag without a name)
+		"<html><head><![CDATA[ 2>1 ]>", "<html><head><![CDATA[ x ]]>", "<html><?php echo 1 ?>", "<html><!x y><!>", "<html></ x><//>",
+		"<html><head><![CDATA[<meta charset=fake7>]]>", "<!DOCTYPE html><![CDATA[ a > b",
 		// character references in attribute values in front of the declaration (named with and without `;`, numeric,
 		// malformed, followed by `=`: attribute mode leaves those alone)
 		"<html><head><meta name=\"a&amp;b\" content=\"x &notit; y &not=z &#x26;#38; &#0; &#128; &#xD800; &bogus; &\">",
